@@ -31,6 +31,8 @@ class ClientAuthenticator:
 
     preference = [b'EXTERNAL', b'DBUS_COOKIE_SHA1', b'ANONYMOUS']
 
+    cookie_dir = None  # keyring directory override, used for testing only
+
     def beginAuthentication(self, protocol):
         self.authenticated = False
         self.protocol = protocol
